@@ -118,10 +118,7 @@ def dFields (tps : List Name) : Sexp → Option FieldsD
   | .list (.atom "named" :: fs) => (fs.mapM (dField tps)).map FieldsD.named
   | _ => none
 
-structure VariantW where
-  ident : Name
-  attrs : List CAttr
-  fields : FieldsD
+abbrev VariantW := VariantD
 
 inductive ItemW where
   | struct (name : Name) (wh : List String) (attrs : List CAttr) (fields : FieldsD)
@@ -221,33 +218,14 @@ def runDisplay (c : Ctx) (item : ItemW) : String :=
       | none => "err"
       | some a => okAns s!"derive_more::core::write!(__derive_more_f,{a.emit})" (rWhere wh cont.bounds)
   | .enum _ wh attrs vs =>
-    match mergeAttrs attrs with
+    match displayEnum c attrs vs with
     | .error _ => "err"
-    | .ok cont =>
-      let badVariant := match cont.fmt with
-        | some sh => (placeholdersByArg c.cc sh variantName).any fun p => p.mods || p.trait ≠ Trait.display
-        | none => false
-      if badVariant then "err" else
-      let step (acc : Except Unit (List String × String)) (v : VariantW) : Except Unit (List String × String) :=
-        match acc with
-        | .error e => .error e
-        | .ok (bounds, arms) =>
-          match mergeAttrs v.attrs with
-          | .error _ => .error ()
-          | .ok va =>
-            if va.fmt.isNone && v.fields.list.isEmpty && c.tr ≠ Trait.display then .error () else
-            let va := { va with rename := match va.rename with | some r => some r | none => cont.rename }
-            let e : Expansion := { shared := cont.fmt, attrs := va, ident := v.ident, fields := v.fields }
-            match displayBody c e with
-            | .error _ => .error ()
-            | .ok b =>
-              let arm := rMatcher v.ident v.fields ++ "=>{" ++ rBody b ++ "},"
-              .ok (bounds ++ (displayBounds c e).map (rBound v.fields), arms ++ arm)
-      match vs.foldl step (.ok ([], "")) with
-      | .error _ => "err"
-      | .ok (bounds, arms) =>
-        let body := if vs.isEmpty then "match*self{}" else "matchself{" ++ arms ++ "}"
-        okAns body (rWhere wh bounds)
+    | .ok rs =>
+      let arms := String.join ((vs.zip rs).map fun (v, (b, _)) =>
+        rMatcher v.ident v.fields ++ "=>{" ++ rBody b ++ "},")
+      let bounds := (vs.zip rs).flatMap fun (v, (_, bs)) => bs.map (rBound v.fields)
+      let body := if vs.isEmpty then "match*self{}" else "matchself{" ++ arms ++ "}"
+      okAns body (rWhere wh bounds)
 
 def rDbgCall (named : Bool) (out : String) : DbgCall → String
   | .value label b =>
@@ -271,11 +249,6 @@ def rDbgBody : DbgBody → String
     if ex then s!"{P}DebugStruct::finish({out})"
     else s!"{P}DebugStruct::finish_non_exhaustive({out})"
 
-/-- The container attributes of Debug are the common ones: a `rename` attribute does not parse. -/
-def dbgMerge (attrs : List CAttr) : R Container :=
-  if attrs.any (fun a => match a with | .rename _ => true | _ => false) then throw .diag
-  else mergeAttrs attrs
-
 def runDebug (cc : CharClasses) (item : ItemW) : String :=
   match item with
   | .union .. => "err"
@@ -289,29 +262,14 @@ def runDebug (cc : CharClasses) (item : ItemW) : String :=
         okAns (rLets fields ++ rDbgBody (debugBody cc cont.fmt name fields))
           (rWhere wh ((debugBounds cc cont fields).map (rBound fields)))
   | .enum _ wh attrs vs =>
-    match dbgMerge attrs with
+    match debugEnum cc attrs vs with
     | .error _ => "err"
-    | .ok cont =>
-      if cont.fmt.isSome then "err" else
-      let step (acc : Except Unit (List String × String)) (v : VariantW) : Except Unit (List String × String) :=
-        match acc with
-        | .error e => .error e
-        | .ok (bounds, arms) =>
-          -- variant attributes: only literals are looked at; a second one is an error
-          let fmts := v.attrs.filterMap fun a => match a with | .fmt f => some f | _ => none
-          if v.attrs.any (fun a => match a with | .fmt _ => false | _ => true) then .error () else
-          if fmts.length > 1 then .error () else
-          let vc : Container := { fmt := fmts.head?, bounds := cont.bounds }
-          match dbgValidate vc.fmt v.fields with
-          | .error _ => .error ()
-          | .ok _ =>
-            let arm := rMatcher v.ident v.fields ++ "=>{" ++ rDbgBody (debugBody cc vc.fmt v.ident v.fields) ++ "},"
-            .ok (bounds ++ (debugBounds cc vc v.fields).map (rBound v.fields), arms ++ arm)
-      match vs.foldl step (.ok ([], "")) with
-      | .error _ => "err"
-      | .ok (bounds, arms) =>
-        let body := if vs.isEmpty then "match*self{}" else "matchself{" ++ arms ++ "}"
-        okAns body (rWhere wh bounds)
+    | .ok rs =>
+      let arms := String.join ((vs.zip rs).map fun (v, (b, _)) =>
+        rMatcher v.ident v.fields ++ "=>{" ++ rDbgBody b ++ "},")
+      let bounds := (vs.zip rs).flatMap fun (v, (_, bs)) => bs.map (rBound v.fields)
+      let body := if vs.isEmpty then "match*self{}" else "matchself{" ++ arms ++ "}"
+      okAns body (rWhere wh bounds)
 
 def cmdFx (line : String) : String :=
   match Sexp.parse line with
